@@ -837,10 +837,38 @@ at_value (std::shared_ptr <dwfl_context> dwctx,
       }
 
     case DW_FORM_sdata:
-      return atval_signed (attr);
-
     case DW_FORM_udata:
-      return atval_unsigned (attr);
+      // For attributes whose value is a named constant, a line or column
+      // number or a file, the attribute decides how the number is presented,
+      // not the fact that it was stored as LEB128.
+      switch (dwarf_whatattr (&attr))
+	{
+	case DW_AT_language:
+	case DW_AT_inline:
+	case DW_AT_encoding:
+	case DW_AT_accessibility:
+	case DW_AT_visibility:
+	case DW_AT_virtuality:
+	case DW_AT_identifier_case:
+	case DW_AT_calling_convention:
+	case DW_AT_ordering:
+	case DW_AT_decimal_sign:
+	case DW_AT_address_class:
+	case DW_AT_endianity:
+	case DW_AT_defaulted:
+	case DW_AT_decl_line:
+	case DW_AT_call_line:
+	case DW_AT_decl_column:
+	case DW_AT_call_column:
+	case DW_AT_decl_file:
+	case DW_AT_call_file:
+	  return handle_at_dependent_value (attr, vd, dwctx);
+	}
+
+      if (form == DW_FORM_sdata)
+	return atval_signed (attr);
+      else
+	return atval_unsigned (attr);
 
     case DW_FORM_addr:
     case DW_FORM_addrx1:
